@@ -571,6 +571,7 @@ impl<'a> Tr<'a> {
             Expr::Lit(l) => match &l.lit {
                 Lit::Int(i) => prim_ty(i.suffix()).map(|s| s.to_string()),
                 Lit::Bool(_) => Some("Bool".into()),
+                Lit::ByteStr(_) => Some("Bytes".into()),
                 _ => None,
             },
             Expr::Path(p) => {
@@ -881,6 +882,11 @@ impl<'a> Tr<'a> {
                     }
                 }
                 Lit::Bool(b) => Ok(if b.value { "true".into() } else { "false".into() }),
+                // b"..": the bytes
+                Lit::ByteStr(bs) if self.typed() => {
+                    let v: Vec<String> = bs.value().iter().map(|x| format!("0x{x:02x}")).collect();
+                    Ok(format!("([{}] : Bytes)", v.join(", ")))
+                }
                 _ => Err("unsupported literal".into()),
             },
             Expr::Path(p) => {
